@@ -272,22 +272,26 @@ def runGroup (b : MB) (order : Nat) : List MEv → TrState → Option Str → Ex
       let (st', p') ← flushPending b.values st pending
       runGroup b order es (st'.emit [e]) p'
 
-/-- `while parts: order, string = parts.pop(0) ...` -/
+/-- one round of `while parts: order, string = parts.pop(0) ...` -/
+def runPart (b : MB) (order : Nat) (s : Str) (st : TrState) : Except Err TrState :=
+  match st.rem order with
+  | none => .error .keyError
+  | some gs =>
+    let (g, rem') : List MEv × Groups :=
+      match gs with
+      | g :: more => (g, setGroups st.rem order more)
+      | [] => ([.ev (.text [])], st.rem)
+    do
+      let (st1, pending) ← runGroup b order g { st with rem := rem' } (some s)
+      -- (repaired code) a part none of whose events emitted the string
+      let (st2, _) ← flushPending b.values st1 pending
+      pure st2
+
 def runParts (b : MB) : List (Nat × Str) → TrState → Except Err TrState
   | [], st => pure st
-  | (order, s) :: ps, st =>
-      match st.rem order with
-      | none => .error .keyError
-      | some gs =>
-        let (g, rem') : List MEv × Groups :=
-          match gs with
-          | g :: more => (g, setGroups st.rem order more)
-          | [] => ([.ev (.text [])], st.rem)
-        do
-          let (st1, pending) ← runGroup b order g { st with rem := rem' } (some s)
-          -- (repaired code) a part none of whose events emitted the string
-          let (st2, _) ← flushPending b.values st1 pending
-          runParts b ps st2
+  | (order, s) :: ps, st => do
+      let st' ← runPart b order s st
+      runParts b ps st'
 
 /-- `MessageBuffer.translate(string)` -/
 def MB.translate (b : MB) (s : Str) : Except Err (List TEvent) := do
